@@ -379,7 +379,7 @@ def segments : List Ref.Parts → List IEv → Option (List (List IEv × List IE
       let as := rest.takeWhile isA
       (segments ps (rest.dropWhile isA)).map fun r => (ds, as) :: r
 
-def checkFresh (sc : Nat → Call) (p : Ref.Parts) (ds as : List IEv) (A : Abs) : Bool × Abs :=
+def checkFresh (sc : Nat → Call) (p : Ref.Parts) (ds as : List IEv) (A : Abs) : Bool × Abs × Bool :=
   let T := match ds.getLast? with | some e => iNow e + (sc (iInst e)).adv | none => 0
   let paused := decide (T < A.pauseUntil)
   let firedIdx := p.groups.findIdx? fun g => g.all fun d => (sc d).ret != Ret.stop
@@ -407,7 +407,9 @@ def checkFresh (sc : Nat → Call) (p : Ref.Parts) (ds as : List IEv) (A : Abs) 
       | Ret.stop => { pauseUntil := tEnd + c.pause.getD p.delay, susp := none }
       | Ret.async => { A with susp := some ((p.acts.idxOf? (iInst e)).getD 0) }
       | Ret.cont => { A with susp := none }
-  (got == expected && nameOk && dlOk, A')
+  -- third component: a suspended chain was due to be resumed (C06: also after ticks on which the ruleset was disabled by a
+  -- drop-in, and for a ruleset-cgroup base whose instance has to survive those ticks) and something else happened
+  (got == expected && nameOk && dlOk, A', A.susp.isSome && !paused && got != expected)
 
 def detSeq (evs : List IEv) : List Nat := evs.filterMap fun e => match e with | IEv.d i _ => some i | _ => none
 def preSeq (evs : List IEv) : List Nat := evs.filterMap fun e => match e with | IEv.p i => some i | _ => none
@@ -453,8 +455,9 @@ def check (s : Scn) (t : ITrace) (cgMode : Bool := false) : List String := Id.ru
       | some segs =>
         let mut abs' : List (String × Abs) := []
         for (p, (ds, as)) in exp.zip segs do
-          let (ok, A') := checkFresh (callOf tk.calls) p ds as ((abs.lookup p.key).getD {})
+          let (ok, A', resumeBad) := checkFresh (callOf tk.calls) p ds as ((abs.lookup p.key).getD {})
           if !ok then v := v ++ ["C13.fresh_copy"]
+          if resumeBad then v := v ++ ["C06.suspended_chain_resumes"]
           abs' := abs' ++ [(p.key, A')]
         -- a disabled base ruleset does not run but keeps its state
         abs := abs' ++ abs.filter fun kv => !(abs'.any fun kv' => kv'.1 == kv.1)
@@ -510,7 +513,9 @@ def handle (j : Json) : Json :=
       else (true, [])
     let accepts := m == impl && twinOk.1
     -- the scenario's `prop` says whose clauses decide `holds` (C13 by default; C02 runs this engine as a second pass)
-    let viol := if jstr sc "prop" == "C02" then checkC02 impl else (check s impl cgMode ++ twinOk.2).eraseDups
+    let viol := if jstr sc "prop" == "C02" then checkC02 impl
+      else if jstr sc "prop" == "C06" then (check s impl cgMode).filter (·.startsWith "C06.")
+      else ((check s impl cgMode ++ twinOk.2).eraseDups).filter (fun c => !c.startsWith "C06.")
     let firstDiff := ((m.ticks.zip impl.ticks).findIdx? fun (a, b) => a != b).getD (min m.ticks.length impl.ticks.length)
     verdict id accepts viol.isEmpty viol ""
       [("first_diff_tick", firstDiff),
